@@ -150,6 +150,7 @@ func (s *state) applyBlock() bool {
 			kindName := "apply-block"
 			if pi > 0 {
 				kindName = "apply-block-other-order"
+				c.Fault("input/permuted-validator-list")
 			}
 			if !s.same(ns.Validators, want.copy(), kindName) {
 				return false
